@@ -121,7 +121,7 @@ func worker(args []string) int {
 		}
 		ioutil.WriteFile(curFile, []byte(strconv.Itoa(i)), 0644)
 		c.CurIndex = i
-		s.Run(c, i)
+		runGuarded(s, c, i)
 		count++
 		if single {
 			break
@@ -140,6 +140,18 @@ func worker(args []string) int {
 	}
 	ioutil.WriteFile(filepath.Join(dir, fmt.Sprintf("hashes-%d-%d.bin", w, start)), hb, 0644)
 	return 0
+}
+
+// runGuarded runs one index. Panics of ion-go are recovered inside package drive; a panic that reaches this
+// point comes from the harness itself and must never be mistaken for a violation: exit code 3.
+func runGuarded(s scenario.Scenario, c *scenario.Ctx, i int) {
+	defer func() {
+		if p := recover(); p != nil {
+			fmt.Fprintf(os.Stderr, "HARNESS PANIC at index %d: %v\n", i, p)
+			os.Exit(3)
+		}
+	}()
+	s.Run(c, i)
 }
 
 // ---------------------------------------------------------------------------------------------------------
@@ -383,6 +395,14 @@ func check(prop, tier string) int {
 					continue
 				}
 				// abnormal death
+				if ee, ok := err.(*exec.ExitError); ok && ee.ExitCode() == 3 {
+					fmt.Printf("worker %d stopped on a harness panic (see %s): infrastructure trouble\n", p.w, filepath.Join(dir, fmt.Sprintf("log-%d-%d.txt", p.w, p.start)))
+					if lb, e2 := ioutil.ReadFile(filepath.Join(dir, fmt.Sprintf("log-%d-%d.txt", p.w, p.start))); e2 == nil {
+						fmt.Println(strings.SplitN(string(lb), "\n", 2)[0])
+					}
+					infra = true
+					continue
+				}
 				deaths++
 				ixb, _ := ioutil.ReadFile(filepath.Join(dir, fmt.Sprintf("cur-%d", p.w)))
 				ix, _ := strconv.Atoi(strings.TrimSpace(string(ixb)))
@@ -647,6 +667,9 @@ func investigate(self string, s scenario.Scenario, prop, tier string, seed uint6
 	if err == nil && !hung {
 		// completed normally this time: pick up its result file as usual
 		return scenario.Violation{}, false
+	}
+	if ee, ok := err.(*exec.ExitError); ok && !hung && ee.ExitCode() == 3 {
+		return scenario.Violation{}, false // harness panic: infrastructure trouble, never a violation
 	}
 	b, rerr := ioutil.ReadFile(caseFile)
 	clause := prop + ".F"
